@@ -164,19 +164,7 @@ func c01Unit(j *Job, u *JobUnit) error {
 					return err
 				}
 				// all response values, base request
-				var baseReq proto.Message
-				Enumerate(m.In, inDims, 0, func(p Point) bool { baseReq = p.Msg; return false })
-				if baseReq == nil || violatesRules(baseReq) {
-					// find the simplest request satisfying the rules
-					baseReq = nil
-					Enumerate(m.In, inDims, 3, func(p Point) bool {
-						if !violatesRules(p.Msg) {
-							baseReq = p.Msg
-							return false
-						}
-						return true
-					})
-				}
+				baseReq := Witness(m.In, inDims)
 				if baseReq == nil {
 					continue
 				}
